@@ -411,3 +411,59 @@ Proof.
   cbv zeta. unfold retry_run. rewrite <- reports_iff.
   destruct (enabled cfg); cbn; destruct (reports p); cbn; repeat split; auto; try discriminate.
 Qed.
+
+(** * Shutdown during a wait *)
+Lemma shutdown_interrupts e1 e2 bo cf cfg outs k :
+  enabled cfg = true -> max_elapsed cfg = 0 ->
+  (k < length outs)%nat -> (forall j, (j <= k)%nat -> is_retry (nth j outs OFinal) = true) ->
+  (forall j d, (j < k)%nat -> cf j d = false) ->
+  let o := retry_run e1 e2 bo (ctx_with_shutdown Interrupts k cf) cfg outs in
+  attempts o = S k /\ res o = RErr ECtx.
+Proof.
+  intros E M Hk Hr Hc. cbv zeta. rewrite (run_enabled _ _ _ _ _ _ E).
+  assert (G : forall j, (j < k)%nat ->
+            give_up e1 e2 bo (ctx_with_shutdown Interrupts k cf) (max_elapsed cfg) j (throttle_of (nth j outs OFinal)) = None).
+  { intros j Hj. unfold give_up, ctx_with_shutdown. rewrite M. cbn [Z.eqb negb andb].
+    rewrite (Hc j _ Hj). replace (Nat.eqb j k) with false by (symmetry; apply Nat.eqb_neq; lia). reflexivity. }
+  assert (Gk : give_up e1 e2 bo (ctx_with_shutdown Interrupts k cf) (max_elapsed cfg) k (throttle_of (nth k outs OFinal)) = Some ECtx).
+  { unfold give_up, ctx_with_shutdown. rewrite M. cbn [Z.eqb negb andb]. rewrite Nat.eqb_refl, orb_true_r. reflexivity. }
+  (* the loop reaches attempt k: generalise over the starting index *)
+  assert (L : forall outs' s, (k - s < length outs')%nat -> (s <= k)%nat ->
+            (forall j, (j <= k - s)%nat -> is_retry (nth j outs' OFinal) = true) ->
+            (forall j, (j < k - s)%nat -> give_up e1 e2 bo (ctx_with_shutdown Interrupts k cf) (max_elapsed cfg) (s + j) (throttle_of (nth j outs' OFinal)) = None) ->
+            give_up e1 e2 bo (ctx_with_shutdown Interrupts k cf) (max_elapsed cfg) k (throttle_of (nth (k - s) outs' OFinal)) = Some ECtx ->
+            attempts (loop e1 e2 bo (ctx_with_shutdown Interrupts k cf) cfg s outs') = S (k - s) /\
+            res (loop e1 e2 bo (ctx_with_shutdown Interrupts k cf) cfg s outs') = RErr ECtx).
+  { induction outs' as [|o rest IH]; intros s Hl Hs Hr' Hg Hgk; [cbn in Hl; lia|].
+    pose proof (Hr' 0%nat ltac:(lia)) as R0. cbn [nth] in R0. destruct o as [p|thr|]; try discriminate.
+    rewrite loop_retry. destruct (Nat.eq_dec s k) as [->|Hne].
+    - rewrite Nat.sub_diag in *. cbn [nth throttle_of] in Hgk. rewrite Hgk. split; reflexivity.
+    - pose proof (Hg 0%nat ltac:(lia)) as G0. rewrite Nat.add_0_r in G0. cbn [nth throttle_of] in G0. rewrite G0.
+      replace (k - s)%nat with (S (k - S s)) in * by lia.
+      destruct (IH (S s)) as [A B].
+      + cbn in Hl. lia.
+      + lia.
+      + intros j Hj. apply (Hr' (S j)). lia.
+      + intros j Hj. specialize (Hg (S j) ltac:(lia)). cbn [nth] in Hg. replace (s + S j)%nat with (S s + j)%nat in Hg by lia. exact Hg.
+      + cbn [nth] in Hgk. exact Hgk.
+      + cbn. split; [now rewrite A | exact B]. }
+  pose proof (L outs 0%nat) as F. rewrite !Nat.sub_0_r in F. apply F; clear F.
+  - exact Hk.
+  - lia.
+  - exact Hr.
+  - intros j Hj. cbn [Nat.add]. now apply G.
+  - exact Gk.
+Qed.
+
+(** For the other two modes the context oracle is untouched: the export runs exactly as if Shutdown had not been called. *)
+Lemma shutdown_no_effect mode at_wait cf :
+  mode <> Interrupts -> forall k d, ctx_with_shutdown mode at_wait cf k d = cf k d.
+Proof. intros H k d. unfold ctx_with_shutdown. destruct mode; [contradiction | |]; apply orb_false_r. Qed.
+
+(** Witness: metric / log exporters, Shutdown during the first wait, yet the export goes on to a second attempt. *)
+Lemma shutdown_not_interrupting_witness :
+  forall e, In e [1; 2; 4; 5]%N ->
+  attempts (retry_run (fun _ => 0) (fun _ => 0) (fun _ => 0)
+              (ctx_with_shutdown (shutdown_mode_of e) 0 (fun _ _ => false))
+              {| enabled := true; max_elapsed := 0 |} [ORetry 0; ORetry 0; OSuccess false]) = 3%nat.
+Proof. intros e [<-|[<-|[<-|[<-|[]]]]]; vm_compute; reflexivity. Qed.
